@@ -1,0 +1,149 @@
+//go:build verif
+
+package translate
+
+import (
+	"encoding/json"
+	"fmt"
+	"hash/fnv"
+	"os"
+	"sort"
+	"strconv"
+	"strings"
+	"sync"
+
+	"github.com/specterops/dawgs/cypher/models/pgsql"
+)
+
+// Scope operation trace for the /verif C06 check. Compiled only with -tags verif and active only while the
+// environment variable VERIF_C06_TRACE names a file: every Scope method that reads or writes the alias /
+// definition tables, the generator or the frame stack appends one S-expression line
+//
+//	(<op> <scope id> <json args…> "<fnv1a64 of the scope's state BEFORE the operation>")
+//
+// so that the Lean model of the scope can be replayed against the real data structure. Read-only.
+var verifTrace struct {
+	sync.Mutex
+	ids   map[*Scope]int
+	snaps []string // state digests (without counters) of the snapshots taken so far, by ordinal
+}
+
+var verifGeneratorClasses = []pgsql.DataType{
+	pgsql.ExpansionPattern, pgsql.ExpansionPath, pgsql.PathComposite, pgsql.NodeComposite,
+	pgsql.EdgeComposite, pgsql.Scope, pgsql.ParameterIdentifier, pgsql.UnknownDataType,
+}
+
+// verifScopeDigest is the canonical text of the modelled part of a scope.
+func verifScopeDigest(s *Scope, withCounters bool) string {
+	var b strings.Builder
+	if withCounters {
+		b.WriteString("g:")
+		for i, c := range verifGeneratorClasses {
+			if i > 0 {
+				b.WriteByte(',')
+			}
+			b.WriteString(strconv.Itoa(s.generator[c]))
+		}
+	}
+	aliases := make([]string, 0, len(s.aliases))
+	for k, v := range s.aliases {
+		aliases = append(aliases, strconv.Itoa(len(k))+":"+string(k)+"="+string(v))
+	}
+	sort.Strings(aliases)
+	b.WriteString("|a:" + strings.Join(aliases, ","))
+	parameterAliases := make([]string, 0, len(s.parameterAliases))
+	for k, v := range s.parameterAliases {
+		parameterAliases = append(parameterAliases, strconv.Itoa(len(k))+":"+string(k)+"="+string(v))
+	}
+	sort.Strings(parameterAliases)
+	b.WriteString("|p:" + strings.Join(parameterAliases, ","))
+	defs := make([]string, 0, len(s.definitions))
+	for k := range s.definitions {
+		defs = append(defs, string(k))
+	}
+	sort.Strings(defs)
+	b.WriteString("|d:" + strings.Join(defs, ","))
+	b.WriteString("|f:")
+	for i, f := range s.stack {
+		if i > 0 {
+			b.WriteByte(',')
+		}
+		b.WriteString(strconv.Itoa(f.id) + "/")
+		if f.Binding != nil {
+			b.WriteString(string(f.Binding.Identifier))
+		}
+	}
+	return b.String()
+}
+
+func verifScopeOp(s *Scope, op string, args ...any) {
+	path := os.Getenv("VERIF_C06_TRACE")
+	if path == "" || s == nil {
+		return
+	}
+	verifTrace.Lock()
+	defer verifTrace.Unlock()
+	var out strings.Builder
+	if st, err := os.Stat(path); err != nil || st.Size() == 0 || verifTrace.ids == nil {
+		// a fresh (truncated) trace file starts a new translation: forget scope identities
+		verifTrace.ids = map[*Scope]int{}
+		verifTrace.snaps = nil
+	}
+	id, known := verifTrace.ids[s]
+	if !known {
+		id = len(verifTrace.ids) + 1
+		verifTrace.ids[s] = id
+		origin := -1
+		digest := verifScopeDigest(s, false)
+		for i := len(verifTrace.snaps) - 1; i >= 0; i-- {
+			if verifTrace.snaps[i] == digest {
+				origin = i
+				break
+			}
+		}
+		if origin >= 0 {
+			fmt.Fprintf(&out, "(from %d %d)\n", id, origin)
+		} else {
+			fmt.Fprintf(&out, "(new %d)\n", id)
+		}
+	}
+	h := fnv.New64a()
+	h.Write([]byte(verifScopeDigest(s, true)))
+	fmt.Fprintf(&out, "(%s %d", op, id)
+	for _, a := range args {
+		var v any
+		switch t := a.(type) {
+		case pgsql.Identifier:
+			v = string(t)
+		case pgsql.DataType:
+			v = string(t)
+		case *pgsql.IdentifierSet:
+			v = t.Strings()
+		default:
+			v = a
+		}
+		switch t := v.(type) {
+		case []string:
+			for _, x := range t {
+				q, _ := json.Marshal(x)
+				out.WriteString(" " + string(q))
+			}
+		case string:
+			q, _ := json.Marshal(t)
+			out.WriteString(" " + string(q))
+		default:
+			fmt.Fprintf(&out, " %v", t)
+		}
+	}
+	fmt.Fprintf(&out, " \"%016x\")\n", h.Sum64())
+	if os.Getenv("VERIF_C06_TRACE_FULL") != "" {
+		fmt.Fprintf(&out, "; %s\n", verifScopeDigest(s, true))
+	}
+	if op == "snapshot" {
+		verifTrace.snaps = append(verifTrace.snaps, verifScopeDigest(s, false))
+	}
+	if f, err := os.OpenFile(path, os.O_APPEND|os.O_WRONLY|os.O_CREATE, 0o644); err == nil {
+		f.WriteString(out.String())
+		f.Close()
+	}
+}
